@@ -1445,7 +1445,7 @@ def grid_yaml(gc):
             'stretch_factor': c['stretch_factor'], 'max_shrink_factor': c['max_shrink_factor']}
 
 
-def build_app(ctx, conf):
+def build_app(ctx, conf, creators=1):
     import yaml
     from mapproxy.wsgiapp import make_wsgi_app
     from webtest import TestApp
@@ -1453,8 +1453,9 @@ def build_app(ctx, conf):
     conf = json.loads(json.dumps(conf))
     conf.setdefault('globals', {})
     conf['globals'].setdefault('cache', {})
-    # one tile creator thread: the check must be deterministic (concurrent creation belongs to C08)
-    conf['globals']['cache'].update({'concurrent_tile_creators': 1, 'base_dir': os.path.join(d, 'cache'), 'lock_dir': os.path.join(d, 'locks'), 'tile_lock_dir': os.path.join(d, 'tlocks')})
+    # one tile creator thread: the check must be deterministic (concurrent creation belongs to C08); the schedule
+    # probe (e2e_schedule) asks for two creators and gates them itself
+    conf['globals']['cache'].update({'concurrent_tile_creators': creators, 'base_dir': os.path.join(d, 'cache'), 'lock_dir': os.path.join(d, 'locks'), 'tile_lock_dir': os.path.join(d, 'tlocks')})
     conf['globals'].setdefault('image', {})
     conf['globals']['image'].update({'resampling_method': 'nearest', 'paletted': False})
     path = os.path.join(d, 'mapproxy.yaml')
@@ -2280,6 +2281,222 @@ def e2e_reprojected(ctx):
     ctx.distribution['e2e:reprojection_worst_error_output_px_x1000'] = int(worst_all * 1000)
 
 
+# ----------------------------------------------------------------------------- deterministic probes (independent of the seed)
+
+WM = 20037508.342789244
+
+
+def wm_conf(cache=None):
+    conf = {
+        'services': {'wms': {'srs': ['EPSG:3857'], 'image_formats': ['image/png'], 'md': {'title': 't'}}},
+        'layers': [{'name': 'lyr', 'title': 'lyr', 'sources': ['c1']}],
+        'caches': {'c1': {'grids': ['GLOBAL_WEBMERCATOR'], 'sources': ['src'], 'format': 'image/png', 'meta_size': [1, 1], 'meta_buffer': 0}},
+        'sources': {'src': {'type': 'wms', 'req': {'url': 'http://up/wms', 'layers': 'a'}}},
+    }
+    if cache is not None:
+        conf['caches']['c1']['cache'] = cache
+    return conf
+
+
+def e2e_deep_levels(ctx):
+    """Cache back-ends on deep levels of a world-wide grid (level 18 of GLOBAL_WEBMERCATOR: 262144 x 262144 tiles): maps of
+    places that are 2^16 and 2^17 tile columns / rows apart (and one tile apart), each answered through one cache, then
+    all of them again from the filled cache.  Every back-end has to keep these tiles apart (the compact cache addresses
+    bundles with the hexadecimal row / column of the tile).  The ground pattern of the synthetic upstream has a period of
+    1536 px here, so that a displacement by a power of two of tiles is visible."""
+    import mapproxy.client.http as http
+    up = Upstream()
+    orig_open = http.HTTPClient.open
+    http.HTTPClient.open = lambda self, url, data=None, method=None: up.open(url, data, method)
+    level = 18
+    res = WM * 2 / 256 / 2 ** level
+    tile = 256 * res
+    try:
+        for name, cache in [('file', None), ('compact-v1', {'type': 'compact', 'version': 1}), ('compact-v2', {'type': 'compact', 'version': 2}),
+                            ('sqlite', {'type': 'sqlite'}), ('mbtiles', {'type': 'mbtiles', 'filename': 'deep.mbtiles'})]:
+            conf = wm_conf(cache)
+            try:
+                app, d = build_app(ctx, conf)
+            except Exception as e:  # noqa
+                ctx.fail('e2e:config', 'make_wsgi_app failed for a valid configuration: %r' % (e,), {'conf': conf})
+                continue
+            ctx.count('deep:config=' + name)
+            up.cell = res * 0.75
+            col, row = 70000 + 37, 90000 + 101      # (rows counted from the north)
+            places = [('A', col, row), ('B = A + 65536 columns', col + 65536, row), ('C = A + 131072 rows', col, row + 131072),
+                      ('D = A + 65536 columns + 65536 rows', col + 65536, row + 65536), ('E = A + 1 column', col + 1, row),
+                      ('F = A - 65536 columns', col - 65536, row)]
+            for rnd in (1, 2):
+                for what, c, r in places:
+                    # 200 x 150 px at the resolution of the level, inside the tile (c, r)
+                    x0 = -WM + c * tile + 23 * res
+                    y1 = WM - r * tile - 31 * res
+                    bbox = (x0, y1 - 150 * res, x0 + 200 * res, y1)
+                    size = (200, 150)
+                    url = wms_url('1.1.1', 'lyr', bbox, size, 'EPSG:3857', False)
+                    up.requests = []
+                    rep = {'conf': conf, 'request': url, 'bbox': bbox, 'size': size, 'place': what, 'round': rnd, 'backend': name,
+                           'history': 'places A..F requested in this order on one cache, then again', 'level': level, 'tile': [c, r]}
+                    ctx.case(('deep', name, what, rnd), True, {'config': 'deep-level ' + name, 'request': url} if (rnd == 1 and what == 'A') else None)
+                    try:
+                        resp = app.get(url, expect_errors=True)
+                    except Exception as e:  # noqa
+                        ctx.fail('e2e:exception', 'request raised %r' % (e,), rep)
+                        continue
+                    if resp.status_int != 200 or not resp.content_type.startswith('image/'):
+                        ctx.fail('e2e:error-response', 'status %s %s' % (resp.status, resp.content_type), rep)
+                        continue
+                    maps = [q for q in up.requests if q['kind'] == 'getmap']
+                    rep['upstream'] = [q['url'] for q in maps][:4]
+                    pixel_oracle(ctx, up, resp.body, bbox, size, res, (-WM, -WM, WM, WM), None, rep, 'deep:' + name, tol_px=1.5, stages=0)
+                    if rnd == 1 and len(maps) != 1:
+                        ctx.fail('deep:%s:upstream-count' % name, 'first map of place %s (one tile that was never stored): %d upstream requests, expected 1'
+                                 % (what, len(maps)), rep)
+                    if rnd == 2 and maps:
+                        ctx.fail('deep:%s:refetch' % name, 'map of place %s asked again: %d upstream requests although the tile was stored' % (what, len(maps)), rep)
+    finally:
+        http.HTTPClient.open = orig_open
+
+
+def e2e_schedule(ctx):
+    """Two tile creators of one cache use one WMS source at the same time (concurrent_tile_creators: 2, a map that needs
+    two tiles that are not stored).  For every point p of WMSClient._query_req at which the creator reads its query (bbox,
+    size, srs) the schedule is forced: the creator that arrives first at p waits there until the other creator has sent a
+    complete upstream request, then goes on.  Whatever the schedule, every upstream request must ask for the rectangle
+    of a tile of the level with the tile size, each needed tile must be asked for and the map must show every place where
+    it belongs (the stored tiles too: the same map again from the cache).  mapproxy is not changed: the gate is a
+    MapQuery subclass given to mapproxy.cache.tile, active only inside WMSClient.retrieve."""
+    import threading
+    import mapproxy.client.http as http
+    import mapproxy.cache.tile as cache_tile
+    import mapproxy.client.wms as client_wms
+    up = Upstream()
+    st = {'point': None, 'first': None, 'achieved': False}
+    lock = threading.Lock()
+    other_sent = threading.Event()
+    tl = threading.local()
+
+    def gate(point):
+        if not getattr(tl, 'in_retrieve', False) or st['point'] != point:
+            return
+        me = threading.current_thread()
+        with lock:
+            if st['first'] is not None:
+                return
+            st['first'] = me
+        if other_sent.wait(5):
+            st['achieved'] = True
+
+    orig_query = cache_tile.MapQuery
+
+    class GateQuery(orig_query):
+        pass
+
+    def gated(attr):
+        def get(self):
+            gate(attr)
+            return self.__dict__[attr]
+
+        def set_(self, value):
+            self.__dict__[attr] = value
+        return property(get, set_)
+    for attr in ('bbox', 'size', 'srs'):
+        setattr(GateQuery, attr, gated(attr))
+
+    orig_retrieve = client_wms.WMSClient.retrieve
+
+    def retrieve(self, query, format):
+        tl.in_retrieve = True
+        try:
+            return orig_retrieve(self, query, format)
+        finally:
+            tl.in_retrieve = False
+
+    def fake_open(self, url, data=None, method=None):
+        with lock:
+            r = up.open(url, data, method)
+            first = st['first']
+        if first is not None and threading.current_thread() is not first:
+            other_sent.set()
+        return r
+
+    orig_open = http.HTTPClient.open
+    http.HTTPClient.open = fake_open
+    cache_tile.MapQuery = GateQuery
+    client_wms.WMSClient.retrieve = retrieve
+    level = 6
+    res = WM * 2 / 256 / 2 ** level
+    tile = 256 * res
+    try:
+        n = 0
+        for layout in ('side by side', 'one above the other'):
+            for point in ('bbox', 'size', 'srs'):
+                n += 1
+                conf = wm_conf()
+                try:
+                    app, d = build_app(ctx, conf, creators=2)
+                except Exception as e:  # noqa
+                    ctx.fail('e2e:config', 'make_wsgi_app failed for a valid configuration: %r' % (e,), {'conf': conf})
+                    continue
+                col, row = 20 + 3 * n, 11 + 2 * n
+                x0 = -WM + col * tile + (100 if layout == 'side by side' else 30) * res
+                y1 = WM - row * tile - 20 * res
+                size = (300, 200) if layout == 'side by side' else (200, 300)
+                bbox = (x0, y1 - size[1] * res, x0 + size[0] * res, y1)
+                url = wms_url('1.1.1', 'lyr', bbox, size, 'EPSG:3857', False)
+                up.cell = res / 2.0
+                up.requests = []
+                st.update({'point': point, 'first': None, 'achieved': False})
+                other_sent.clear()
+                rep = {'conf': conf, 'request': url, 'bbox': bbox, 'size': size, 'concurrent_tile_creators': 2,
+                       'schedule': 'the tile creator that first reads query.%s inside WMSClient._query_req waits there until the other '
+                                   'creator has sent its complete upstream request, then continues' % point}
+                ctx.case(('schedule', layout, point), True, {'config': 'two tile creators, gate at query.' + point, 'request': url} if n == 1 else None)
+                try:
+                    resp = app.get(url, expect_errors=True)
+                except Exception as e:  # noqa
+                    ctx.fail('e2e:exception', 'request raised %r' % (e,), rep)
+                    continue
+                finally:
+                    st['point'] = None
+                ctx.count('schedule:achieved' if st['achieved'] else 'schedule:not_achieved')
+                if resp.status_int != 200 or not resp.content_type.startswith('image/'):
+                    ctx.fail('e2e:error-response', 'status %s %s' % (resp.status, resp.content_type), rep)
+                    continue
+                maps = [q for q in up.requests if q['kind'] == 'getmap']
+                rep['upstream'] = sorted(q['url'] for q in maps)[:4]
+                # the two tiles of the map
+                if layout == 'side by side':
+                    want = [(col, row), (col + 1, row)]
+                else:
+                    want = [(col, row), (col, row + 1)]
+                asked = []
+                for q in maps:
+                    tx = (q['bbox'][0] + WM) / tile
+                    ty = (WM - q['bbox'][3]) / tile
+                    ok = (q['size'] == (256, 256) and abs(tx - round(tx)) < 1e-6 and abs(ty - round(ty)) < 1e-6
+                          and abs((q['bbox'][2] - q['bbox'][0]) - tile) < 1e-6 * tile and abs((q['bbox'][3] - q['bbox'][1]) - tile) < 1e-6 * tile
+                          and q['srs'] == 'EPSG:3857')
+                    if not ok:
+                        ctx.fail('schedule:upstream-request', 'upstream request %r is not one tile of level %d in EPSG:3857' % (q['url'], level), rep)
+                    asked.append((int(round(tx)), int(round(ty))))
+                if sorted(asked) != sorted(want):
+                    ctx.fail('schedule:wrong-tiles-requested', 'the map needs the tiles %r of level %d; the upstream was asked for the rectangles of %r'
+                             % (sorted(want), level, sorted(asked)), rep)
+                pixel_oracle(ctx, up, resp.body, bbox, size, res, (-WM, -WM, WM, WM), None, rep, 'schedule', tol_px=1.5, stages=0)
+                # what was stored: the same map again, served from the cache
+                n0 = len(up.requests)
+                resp2 = app.get(url, expect_errors=True)
+                if resp2.status_int == 200:
+                    pixel_oracle(ctx, up, resp2.body, bbox, size, res, (-WM, -WM, WM, WM), None, dict(rep, request_number=2), 'schedule:cached', tol_px=1.5, stages=0)
+                if len(up.requests) != n0:
+                    ctx.fail('schedule:refetch', 'second identical request went upstream again', rep)
+    finally:
+        http.HTTPClient.open = orig_open
+        cache_tile.MapQuery = orig_query
+        client_wms.WMSClient.retrieve = orig_retrieve
+
+
 def replay_corpus(ctx):
     """minimised witnesses (corpus/C01/*.json) are replayed first"""
     import mapproxy.client.http as http
@@ -2338,7 +2555,8 @@ def run(ctx):
     for name, f in [('same_srs', lambda: e2e_same_srs(ctx, T, grid_defs)), ('featureinfo', lambda: e2e_featureinfo(ctx, T, grid_defs)),
                     ('featureinfo_transformed', lambda: e2e_featureinfo_transformed(ctx)),
                     ('srs_extent', lambda: e2e_srs_extent(ctx, T)),
-                    ('reprojected', lambda: e2e_reprojected(ctx))]:
+                    ('reprojected', lambda: e2e_reprojected(ctx)),
+                    ('deep_levels', lambda: e2e_deep_levels(ctx)), ('schedule', lambda: e2e_schedule(ctx))]:
         try:
             f()
         except Exception as e:  # noqa
